@@ -107,6 +107,18 @@ def discharge(ob, budget_s=60.0, use_cvc5=True, cross=False):
     except Exception:
         pass
     ring_done = res['status'] == 'unsat'
+    # 1b. relaxation: without the witness facts (sqrt/trig axioms).  unsat here is unsat with them.
+    if not ring_done and getattr(ob, 'light', None) is not None and len(ob.light) < len(ob.hyps):
+        tried.append('z3-nofacts')
+        try:
+            st, _ = _z3_check(ob.light, ob.goal, min(5000, budget_s * 100))
+        except z3.Z3Exception:
+            st = 'unknown'
+        if st == 'unsat':
+            res.update(status='unsat', backend='z3-nofacts')
+            res['time'] = time.time() - t0
+            res['tried'] = tried
+            return res
     # 2. z3 default, 3. nlsat
     remaining = lambda: max(1.0, budget_s - (time.time() - t0))
     st = 'unknown'
